@@ -1,5 +1,6 @@
 import Pandora.Drv.Util
 import Pandora.Spec.C03
+import Pandora.Model.C03Fine
 
 /-!
 C03 driver.  Input: `inst=<startup tokens> shared=<0|1> tokens=<n> ammo=<n|-1> discard=<0|1> …` (the other keys only
@@ -9,53 +10,79 @@ with events `c<i>:<left>` (IsFinished saw Left()), `a<i>` / `e<i>` (Acquire ok /
 `s<i>:<k>` (Shoot of item k), `d<i>` (discarded sample reported), `r<i>:<k>` (Release of item k); `i` = instance in order
 of first appearance, `k` = acquisition number of the item.
 
-The log is replayed through `Model.C03.step`.  Three model events are not visible to the harness and are inserted where
-the regenerated loop body puts them: `start i` before the first event of a new instance, `reqAdd i` right before
-`shoot i k`, `respAdd i` right before the `rel` of an instance that has shot.
+The log is replayed through `Model.C03Fine.fstep` (the pool at the granularity of the schedule's atomic operations,
+which refines `Model.C03.step`: `Proofs.C03Fine.fine_refines`).  Three model events are not visible to the harness and
+are inserted where the regenerated loop body puts them: `start i` before the first event of a new instance, `reqAdd i`
+right before `shoot i k`, `respAdd i` right before the `rel` of an instance that has shot.
+
+Inputs with `fine=1` are run on a worker with scheduling points inside the schedule's `Next` / `Left`; their logs also
+carry `t<i>:<field>.<op>` = instance i performed that atomic operation on the schedule's shared state (`i.Inc` inside
+Next, `i.Load` inside Left; anything else is not an operation of the model and is rejected).  In such a log `n<i>` /
+`x<i>` / `c<i>:<left>` are the RETURNS of the calls.  In a log without access events (`fine` absent) the access is taken
+to happen right before the return.  A negative `Left()` is no event of the model (rejected).
 -/
 namespace Pandora.Drv.C03
-open Pandora.Drv Pandora.Model.C03 Pandora.Spec.C03
+open Pandora.Drv Pandora.Model.C03 Pandora.Model.C03Fine Pandora.Spec.C03
 
 def nat2 (r : List Char) : Option (Nat × Nat) :=
   match (String.ofList r).splitOn ":" with
   | [i, l] => do pure (← i.toNat?, ← l.toNat?)
   | _ => none
 
-def parseEv (s : String) : Option Ev :=
+/-- what one logged token says -/
+inductive Obs where
+  | ev (e : Ev)                      -- an operation of the loop
+  | acc (i : Nat) (what : String)    -- fine logs: an atomic operation on the schedule's shared state
+  | impossible (i : Nat)             -- well-formed, but nothing the model can do (a negative `Left()`)
+
+def parseObs (s : String) : Option Obs :=
   match s.toList with
-  | 'c' :: r => (nat2 r).map fun (i, l) => .chk i l
-  | 'a' :: r => (String.ofList r).toNat?.map .acq
-  | 'e' :: r => (String.ofList r).toNat?.map .empty
-  | 'n' :: r => (String.ofList r).toNat?.map .tokOk
-  | 'x' :: r => (String.ofList r).toNat?.map .tokEnd
-  | 's' :: r => (nat2 r).map fun (i, k) => .shoot i k
-  | 'd' :: r => (String.ofList r).toNat?.map .discard
-  | 'r' :: r => (nat2 r).map fun (i, k) => .rel i k
+  | 'c' :: r =>
+    match (String.ofList r).splitOn ":" with
+    | [i, l] => match i.toNat?, l.toInt? with
+      | some i, some l => if l < 0 then some (.impossible i) else some (.ev (.chk i l.toNat))
+      | _, _ => none
+    | _ => none
+  | 'a' :: r => (String.ofList r).toNat?.map fun i => .ev (.acq i)
+  | 'e' :: r => (String.ofList r).toNat?.map fun i => .ev (.empty i)
+  | 'n' :: r => (String.ofList r).toNat?.map fun i => .ev (.tokOk i)
+  | 'x' :: r => (String.ofList r).toNat?.map fun i => .ev (.tokEnd i)
+  | 's' :: r => (nat2 r).map fun (i, k) => .ev (.shoot i k)
+  | 'd' :: r => (String.ofList r).toNat?.map fun i => .ev (.discard i)
+  | 'r' :: r => (nat2 r).map fun (i, k) => .ev (.rel i k)
+  | 't' :: r =>
+    match (String.ofList r).splitOn ":" with
+    | [i, w] => i.toNat?.map fun i => .acc i w
+    | _ => none
   | _ => none
 
-def evInst : Ev → Nat
-  | .start i | .chk i _ | .acq i | .empty i | .tokOk i | .tokEnd i | .reqAdd i | .shoot i _ | .respAdd i
-  | .discard i | .rel i _ => i
+def Obs.inst : Obs → Nat
+  | .ev e => evInst e
+  | .acc i _ => i
+  | .impossible i => i
 
-/-- the model events for one observed event (hidden events inserted) -/
-def expand (s : St) (e : Ev) : List Ev :=
-  let pre := if evInst e == s.started then [Ev.start (evInst e)] else []
-  match e with
-  | .shoot i k => pre ++ [.reqAdd i, .shoot i k]
-  | .rel i k => pre ++ (if s.pcs[i]? == some .shot then [.respAdd i] else []) ++ [.rel i k]
-  | e => pre ++ [e]
-
-def runList (c : Cfg) : St → List Ev → Option St
-  | s, [] => some s
-  | s, e :: es => match step c s e with
-    | some s' => runList c s' es
-    | none => none
+/-- the model events for one observed token (hidden events inserted); `none` = not an operation of the model -/
+def expand (fine : Bool) (s : FSt) (o : Obs) : Option (List FEv) :=
+  let pre := if o.inst == s.base.started then [FEv.other (.start o.inst)] else []
+  match o with
+  | .impossible _ => none
+  | .acc i w =>
+    if w == "i.Inc" then some (pre ++ [.inc i])
+    else if w == "i.Load" then some (pre ++ [.load i])
+    else none
+  | .ev (.shoot i k) => some (pre ++ [.other (.reqAdd i), .other (.shoot i k)])
+  | .ev (.rel i k) => some (pre ++ (if s.base.pcs[i]? == some .shot then [.other (.respAdd i)] else []) ++ [.other (.rel i k)])
+  | .ev (.chk i l) => some (pre ++ (if fine then [.leftRet i l] else [.load i, .leftRet i l]))
+  | .ev (.tokOk i) => some (pre ++ (if fine then [.nextRet i true] else [.inc i, .nextRet i true]))
+  | .ev (.tokEnd i) => some (pre ++ (if fine then [.nextRet i false] else [.inc i, .nextRet i false]))
+  | .ev e => some (pre ++ [.other e])
 
 /-- replay; returns the state or the index and text of the first event that is not enabled -/
-def replay (c : Cfg) : St → List (Ev × String) → Nat → Except String St
+def replay (c : Cfg) (fine : Bool) : FSt → List (Obs × String) → Nat → Except String FSt
   | s, [], _ => .ok s
-  | s, (e, txt) :: es, k => match runList c s (expand s e) with
-    | some s' => replay c s' es (k + 1)
+  | s, (o, txt) :: es, k =>
+    match (expand fine s o).bind (frun c s) with
+    | some s' => replay c fine s' es (k + 1)
     | none => .error s!"rejected@{k}:{txt}"
 
 /-- key of pool `j`: the plain key for a single pool, `key.j` when the engine runs several -/
@@ -81,14 +108,15 @@ def poolOf (kv o : List (String × String)) (pools j : Nat) : Option PoolRes :=
   let c : Cfg := { perInstance := inKey kv j "shared" == "0", tokens := (g "exact").toNat?.getD 0, ammo := ammo,
                    discardOn := inKey kv j "discard" == "1",
                    instances := (g "cap").toNat?.getD ((inKey kv j "inst").toNat?.getD 0) }
-  match (splitList (g "log")).mapM (fun t => (parseEv t).map (·, t)) with
+  let fine := getS kv "fine" == "1"
+  match (splitList (g "log")).mapM (fun t => (parseObs t).map (·, t)) with
   | none => none
   | some evs =>
-    let cnt (p : Ev → Bool) := (evs.filter (fun e => p e.1)).length
-    let r := replay c (init c) evs 0
-    let st := match r with | .ok s => some s | .error _ => none
+    let cnt (p : Ev → Bool) := (evs.filter (fun e => match e.1 with | .ev e => p e | _ => false)).length
+    let r := replay c fine (finit c) evs 0
+    let st := match r with | .ok s => some s.base | .error _ => none
     -- a single pool: InstanceStart is this pool's; several pools: the instances seen in this pool's log
-    let seen := (evs.map (fun e => evInst e.1)).foldl (fun m i => max m (i + 1)) 0
+    let seen := (evs.map (fun e => e.1.inst)).foldl (fun m i => max m (i + 1)) 0
     let started := if pools ≤ 1 then (getN? o "started").getD 0 else seen
     let k : Counters := {
       started := started,
@@ -98,8 +126,9 @@ def poolOf (kv o : List (String × String)) (pools j : Nat) : Option PoolRes :=
       maxReleases := (g "relmax").toNat?.getD 0, minReleases := (g "relmin").toNat?.getD 1 }
     let err := match r with
       | .error e => some e
-      | .ok s =>
-        if !s.terminal then some "not-terminal"
+      | .ok fs =>
+        let s := fs.base
+        if !fs.terminal then some "not-terminal"
         else if s.started != seen then some s!"started-mismatch:model {s.started} log {seen}"
         else if s.fired != k.fired || s.discarded != k.discarded then some "counter-mismatch"
         else if s.badUse then some "bad-use"
@@ -111,6 +140,7 @@ def handle : Handler := fun input impl =>
   let o := parseKV impl
   if impl.startsWith "CRASH" || impl.startsWith "HANG" || impl.startsWith "PANIC" then
     ("-", s!"fail:crash:the engine did not end: {impl.take 200}") else
+  if getS o "res" == "noinstr" then ("-", s!"skip:no-instrumented-worker:{getS o "why"}") else
   if getS o "res" != "ok" then ("-", s!"fail:abnormal-end:{getS o "res"}") else
   let pools := max 1 ((getN? kv "pools").getD 1)
   match (List.range pools).mapM (poolOf kv o pools) with
@@ -119,6 +149,8 @@ def handle : Handler := fun input impl =>
     let req := (getN? o "req").getD 0
     let resp := (getN? o "resp").getD 0
     let v := verdict (prs.map fun p => (p.cfg, p.cnt)) req resp
+    -- fine logs are only in operation order while the controller let one instance run at a time
+    if getS kv "fine" == "1" && getS o "partial" != "0" then ("-", v) else
     match prs.findSome? (·.err) with
     | some e => (e, v)
     | none =>
